@@ -49,9 +49,14 @@ CHECKS["C03"] = dict(
     text="Resp.decode_encode/decodeList_encode: an independent RESP2 decoder inverts the reply encoder for every reply (nested arrays, arbitrary bulk bytes). "
          "Exec.one_reply_per_command, replies_in_order, nothing_after_error: the model of Manager.Handle writes exactly one reply per array command, in "
          "order, and executes nothing after a protocol error. The raw bytes Manager.Handle writes for generated multi-connection pipelines are decoded by "
-         "that verified decoder (all bytes consumed) and compared value by value with the model; the exec engine does the same for every executor reply.",
-    note="Trusted: Lean kernel, harness (net.Pipe, sentinel PING framing), driver. Partial: WF of every executor's reply is enforced by the decoder on "
-         "generated inputs rather than proved for the whole command table.",
+         "that verified decoder (all bytes consumed) and compared value by value with the model; the exec engine does the same for every executor reply. "
+         "Exec.Global.C03_exec_wf / C03_client_decodes / C03_program_wf: for all 77 commands of the table, every database and every argument vector the "
+         "model's reply is well-framed (simple strings and error lines are LF-free constants; payload bytes only inside bulk strings), so a conforming "
+         "client decodes exactly that reply whatever bytes are stored (hypothesis: an error text adopted from the observed reply in checker mode is "
+         "itself a decoded error line; obs_hypothesis_needed shows it cannot be dropped). Parallel sessions (4-10 connections owning disjoint keys, "
+         "large array replies written at the same moment) check that each client receives exactly its own replies.",
+    note="Trusted: Lean kernel, harness (net.Pipe, sentinel PING framing), driver. The theorem is about the model; the Go encoder is tied by the "
+         "byte-level comparison. Scheduler and socket behaviour under concurrent connections are explored, not proved.",
 )
 CHECKS["C19"] = dict(
     category="proof", design_ref="DESIGN.md §6 C19", engine="serve",
@@ -110,7 +115,8 @@ CHECKS["C11"] = dict(
     category="proof", design_ref="DESIGN.md §6 C11", engine="exec",
     technique="Lean 4 executable model of the set commands with kernel-checked set-algebra theorems (membership laws, union/intersection/difference, "
               "STORE semantics, non-empty/duplicate-free invariant, checker soundness for random commands) + differential correspondence on generated programs",
-    text="The 14 set executors are modelled as total Lean functions on the shared keyspace (Exec/Set.lean; sets as duplicate-free lists, algebra "
+    text="GLOBAL: Exec.Global.global_invariant / no_empty_container / inv_iff_families - for programs over ALL 77 commands of every family the keyspace stays well-formed and never holds an empty list, set, hash or sorted set (and sets stay duplicate-free, hash tables Ok, trees ZT.Inv, stream ids increasing). "
+         "The 14 set executors are modelled as total Lean functions on the shared keyspace (Exec/Set.lean; sets as duplicate-free lists, algebra "
          "from Ds/SetOps.lean). Kernel-checked theorems (Props/C11.lean): SADD/SREM one-step membership laws and cardinality replies; SUNION/SINTER/"
          "SDIFF replies are exactly the mathematical operations with missing keys as empty sets; S*STORE leaves exactly the result in the "
          "destination (deleted when empty, no deadline, any previous type) and nothing else changes; SMOVE moves or changes nothing and conserves "
@@ -126,7 +132,8 @@ CHECKS["C11"] = dict(
 CHECKS["C10"] = dict(
     category="proof", design_ref="DESIGN.md §6 C10", engine="exec",
     technique="Lean 4 executable hash model with kernel-checked map laws, invariants and checker soundness + differential correspondence (replies and keyspace dumps) on generated command programs",
-    text="The 14 hash executors are modelled as total Lean functions on the shared keyspace (Exec/Hash.lean over the field table of Ds/HashSel.lean). "
+    text="GLOBAL: Exec.Global.global_invariant / no_empty_container / inv_iff_families - for programs over ALL 77 commands of every family the keyspace stays well-formed and never holds an empty list, set, hash or sorted set (and sets stay duplicate-free, hash tables Ok, trees ZT.Inv, stream ids increasing). "
+         "The 14 hash executors are modelled as total Lean functions on the shared keyspace (Exec/Hash.lean over the field table of Ds/HashSel.lean). "
          "Kernel-checked (Props/C10.lean, C10_holds): HGET after HSET answers the last value written for every byte string incl. the empty one; "
          "the HSET/HDEL/HSETNX replies count exactly what changed; HDEL removes exactly the named fields and an emptied hash leaves the keyspace "
          "with its deadline; fields stay unique and no empty hash is stored under all 14 commands; HLEN/HEXISTS/HSTRLEN agree with HGET; HINCRBY "
@@ -146,7 +153,8 @@ CHECKS["C09"] = dict(
          "theorems (Props/C09.lean): LRANGE/LTRIM = specRange for all start/stop, LINDEX/LSET addressing from either end, LREM removes "
          "min(|count|, occurrences) from the chosen end and keeps everything else in order, push/pop laws with counts, LMOVE conserves the "
          "elements (rotation on one key), LPOS equals a short reference definition for all RANK/COUNT/MAXLEN, and list_never_empty for the "
-         "whole list command table; Ds/ListOps ties the Go index loops to the reference. The model is tied to the Go executors by running "
+         "whole list command table, extended by Exec.Global.global_invariant to programs over ALL 77 commands of every family (no command of any family, "
+         "including DEL/RENAME/SET/EXPIRE and the store commands, leaves an empty list, set, hash or sorted set behind, and Db.WF is kept); Ds/ListOps ties the Go index loops to the reference. The model is tied to the Go executors by running "
          "generated programs (duplicate-rich values, indexes and counts across both ends and at the int64 extremes, other-typed and "
          "expiring keys, blocking pops served at once / timing out / invalid timeouts) through server.Manager.ExecCommand and comparing "
          "every reply and the dump of the touched keys, where the dump hook checks forward walk = reverse(backward walk) = Len.",
@@ -159,7 +167,8 @@ CHECKS["C12"] = dict(
     category="proof", design_ref="DESIGN.md §6 C12", engine="exec",
     technique="Lean 4 theorems on the executable AVL-tree model (invariant over all programs, member/score algebra, range window, rank) + differential "
               "correspondence on generated programs comparing replies and the tree itself node for node",
-    text="The tree of memdb/btree.go (insert with the four rotation cases, deleteNode, rebalance; nodes hold score + name set + stored height) "
+    text="GLOBAL: Exec.Global.global_invariant / no_empty_container / inv_iff_families - for programs over ALL 77 commands of every family the keyspace stays well-formed and never holds an empty list, set, hash or sorted set (and sets stay duplicate-free, hash tables Ok, trees ZT.Inv, stream ids increasing). "
+         "The tree of memdb/btree.go (insert with the four rotation cases, deleteNode, rebalance; nodes hold score + name set + stored height) "
          "and ZADD/ZREM/ZRANGE/ZRANK are modelled in Lean (Ds/ZTree.lean, Exec/ZSet.lean). Kernel-checked: every keyspace reachable by any "
          "program over these commands holds only non-empty sorted sets that are height-balanced search trees with exact stored heights and one "
          "node per member name (C12_invariant_every_state, also for the trees inside a multi-pair ZADD); ZADD re-scores exactly one member, ZREM "
@@ -276,7 +285,12 @@ CHECKS["C07"] = dict(
     technique="Lean 4 theorems on the apply pipeline (exactly-once, in-order delivery for every overlap of Ready batches) and on the abstract protocol "
               "(commit order respects real time) + differential correspondence of the real entriesToApply/publishEntries + END-TO-END EXPLORATION on real node "
               "processes (concurrent clients, SIGKILL/restart/membership faults, porcupine, per-node agreement)",
-    text="PROVED (kernel-checked): Apply.apply_exactly_once / publish_spec - whatever the overlap of the Ready batches, each committed entry reaches the state "
+    text="PROVED (kernel-checked): C07.C07_replicas_statement_false - the unrestricted statement (identical keyspaces for any two replicas applying the "
+         "same log with their own clocks and random sources) is FALSE, with kernel-evaluated witnesses mirroring the recorded findings (SET EX, EXPIRE, SPOP, "
+         "XADD *); C07.C07_replicas_partial / _fl_partial / _same_clock_partial - for logs of Deterministic commands (everything except the random/float "
+         "commands, XADD *, and relative deadlines) from a deadline-free keyspace, ANY two environment sequences give identical replies and keyspaces after "
+         "every prefix, over the whole 77-command table; with equal clock readings only the random/float commands and XADD * are excluded; "
+         "classification_tight - each excluded class has a diverging witness. Apply.apply_exactly_once / publish_spec - whatever the overlap of the Ready batches, each committed entry reaches the state "
          "machine exactly once, in index order; RS.commit_order_respects_real_time - a proposal made after an index was committed is committed strictly behind it, "
          "for every cluster size and schedule of the abstract protocol. TIED to the code by running random overlapping batches (incl. gaps, which must be refused) "
          "through the real entriesToApply/publishEntries against Apply.publish, and by extracting the order of the Ready arm (fact F4). "
@@ -284,7 +298,7 @@ CHECKS["C07"] = dict(
          "checked only on the runs explored: 3 and 5 real node processes on loopback, 4-16 concurrent RESP clients against random nodes, SIGKILL of followers / the "
          "leader / a minority / all nodes at random instants and restart from disk, snapshot-threshold crossings, a follower caught up by MsgSnap, rconf add/delete; "
          "per-key linearizability by porcupine (commands with broken connections = unknown outcome), a read of every key through every node at quiescence, process liveness.",
-    note="Level: proof for the apply pipeline and the real-time order of the abstract protocol; exploration / fault enumeration on real processes for everything "
+    note="Level: proof for replica agreement on the deterministic fragment of the model, for the apply pipeline and the real-time order of the abstract protocol; exploration / fault enumeration on real processes for everything "
          "end to end (no proof that etcd raft + rafthttp + goroutines implement the abstract protocol; C15 ties raft.RawNode by lock-step). Workload restricted to "
          "log-deterministic commands: relative TTLs, SPOP/SRANDMEMBER and XADD * diverge between replicas (known findings C07, each with a minimal scenario run on "
          "every check). No network partitions or disk faults; SIGKILL keeps the page cache. Trusted: Lean kernel (propext, Classical.choice, Quot.sound), harness, "
